@@ -1,6 +1,6 @@
 (* C18 — Server discovery yields each wanted server exactly once.
    Only statements, closed by [exact]; proofs live in Proofs/C18_Discovery.v. *)
-From DT Require Import Lib.Bytes Lib.Split Model.C18_Discovery Proofs.C18_Discovery.
+From DT Require Import Lib.Bytes Lib.Split Model.C18_Discovery Proofs.C18_Discovery Model.C18_Throttle Proofs.C18_Throttle Gen.Consts.
 From Coq Require Import Permutation.
 
 (* For every entry list, every optional filter and every index sequence the random source can
@@ -45,3 +45,29 @@ Example C18_example :
   valid_idxs [2; 0; 1; 0] (length (dedup bytes_eqb (filter m entries)))
   /\ server_list bytes_eqb (Some m) [2; 0; 1; 0] entries = Some [B"c"; B"a"; B"d"; B"b:2222"].
 Proof. vm_compute. repeat split; lia. Qed.
+
+(* Contacting the servers: the connection throttle.  Every connection takes one of [cap] slots before it dials and gives
+   it back when its session is established or its dial has failed.  On every schedule: never more than [cap] connections
+   are being established; no schedule is infinite; and a schedule that cannot be extended has dialled EVERY server -
+   none is left waiting, however many dials failed before it (cap >= 1). *)
+Theorem C18_throttle_bound : forall n cap es s, trun (tinit n cap) es = Some s -> count_stat Dialing (conns s) <= cap.
+Proof. exact throttle_bound. Qed.
+Theorem C18_throttle_terminates : forall es s s', trun s es = Some s' -> length es + tmu s' <= tmu s.
+Proof. exact trun_bounded. Qed.
+Theorem C18_all_contacted : forall n cap es s, 0 < cap -> trun (tinit n cap) es = Some s ->
+  (forall e, tstep s e = None) -> count_stat Waiting (conns s) = 0 /\ count_stat Dialing (conns s) = 0.
+Proof. exact stuck_all_contacted. Qed.
+Print Assumptions C18_all_contacted.
+
+(* the default number of slots, ConnectionsPerCPU (read from the source) times NumCPU, is positive: the hypothesis of
+   C18_all_contacted holds for a client started without --cpc *)
+Theorem C18_default_throttle_positive : forall ncpu : Z, (1 <= ncpu)%Z -> (0 < c_default_connections_per_cpu * ncpu)%Z.
+Proof. exact default_slots_positive. Qed.
+
+Example C18_throttle_example :
+  exists s, trun (tinit 3 1) [Acquire 2; DialFail 2; Acquire 0; DialOk 0; Acquire 1; DialFail 1; SessionEnd 0] = Some s
+            /\ conns s = [Ended; Ended; Ended] /\ free s = 1 /\ (forall e, tstep s e = None).
+Proof.
+  eexists. split; [vm_compute; reflexivity|]. repeat split.
+  intros [i|i|i|i]; destruct i as [|[|[|i]]]; cbn; try reflexivity; destruct i; reflexivity.
+Qed.
